@@ -13,11 +13,63 @@ func init() { register("C13", c13) }
 
 func c13(c *core.Check) {
 	c.Explain = "Thin: structural necessary conditions of a consistent table grid, decided on the SSA form and the syntax tree: (R1) a cell spans at least one column and a non-negative number of rows; (R2) the slot assignment of wrapTable gives each cell the first column not occupied by a row-spanning cell, advances the cursor by the cell's colspan, clamps rowspan to the rows left in the group (0 meaning all of them) and marks exactly the columns of the cell as occupied in the spanned rows — so two cells never receive the same slot; (R3) the side-mirrored assignments, the box-edge sums and the named arguments of the table layout code are consistent. Column width distribution, row heights, border-spacing arithmetic and the equalities between cell edges are numerical relations between runtime values and are not decided."
-	p := c.Prog
+	_ = c.Prog
 	r1 := c.Rule("R1", "NewTableCellBox reads colspan with the lower bound 1 and rowspan with the lower bound 0", 2)
 	spanBounds(c, r1)
 
 	r2 := c.Rule("R2", "wrapTable's slot assignment: GridX is the cursor after skipping the columns occupied in this row; the cursor then advances by Colspan; Rowspan is clamped to the rows left in the group (all of them for 0); the columns marked as occupied in the spanned rows are those from GridX to GridX+Colspan", 5)
+	tableSlotRule(c, r2)
+
+	r3 := c.Rule("R3", "the table layout code mirrors its side-symmetric assignments, sums margins, paddings and borders with consistent sides, and passes its named arguments in order", 6)
+	tfiles := map[string]bool{"tables.go": true}
+	sideSymmetryRule(c, r3, "html/layout", tfiles, 0)
+	sideSumRule(c, r3, "html/layout", tfiles, 1)
+	argNameRule(c, r3, "html/layout", tfiles, 6)
+	_ = fmt.Sprint
+}
+
+// spanBounds: shared by C09.R5 and C13.R1.
+func spanBounds(c *core.Check, r *core.Rule) {
+	p := c.Prog
+	fn := p.Fn("html/boxes", "NewTableCellBox")
+	if fn == nil {
+		r.Anchor("html/boxes.NewTableCellBox")
+		return
+	}
+	want := map[string]int64{"Colspan": 1, "Rowspan": 0}
+	seen := map[string]bool{}
+	core.Instrs(fn, func(in ssa.Instruction) {
+		st, ok := in.(*ssa.Store)
+		if !ok {
+			return
+		}
+		fa, ok := st.Addr.(*ssa.FieldAddr)
+		if !ok {
+			return
+		}
+		w, isSpan := want[core.FieldName(fa)]
+		if !isSpan {
+			return
+		}
+		seen[core.FieldName(fa)] = true
+		got := int64(-99)
+		if call, ok := st.Val.(*ssa.Call); ok && len(call.Call.Args) == 2 {
+			if k, ok := core.ConstInt(call.Call.Args[1]); ok {
+				got = k
+			}
+		}
+		r.Cond(got == w, "NewTableCellBox | "+core.FieldName(fa)+" lower bound", p.Pos(st.Pos()), fmt.Sprintf("minimum %d", got), fmt.Sprintf("the attribute is read with the lower bound %d, HTML 5 gives %d", got, w))
+	})
+	for f := range want {
+		if !seen[f] {
+			r.Fail("NewTableCellBox | "+f+" lower bound", p.Pos(fn.Pos()), "the field is not assigned")
+		}
+	}
+}
+
+// tableSlotRule: shared by C13.R2 and C09.R7 (wrapTable is part of box generation).
+func tableSlotRule(c *core.Check, r2 *core.Rule) {
+	p := c.Prog
 	var fn *ssa.Function
 	for _, f := range p.FuncsOfPkg("html/boxes") {
 		hasStore := false
@@ -171,51 +223,5 @@ func c13(c *core.Check) {
 			}
 		})
 		r2.Cond(marked, name+" | the spanned rows mark the cell's columns", p.Pos(fn.Pos()), "columns GridX … GridX+Colspan-1 are marked occupied in every spanned row", "the columns marked as occupied in the spanned rows are not exactly those of the cell")
-	}
-
-	r3 := c.Rule("R3", "the table layout code mirrors its side-symmetric assignments, sums margins, paddings and borders with consistent sides, and passes its named arguments in order", 6)
-	tfiles := map[string]bool{"tables.go": true}
-	sideSymmetryRule(c, r3, "html/layout", tfiles, 0)
-	sideSumRule(c, r3, "html/layout", tfiles, 1)
-	argNameRule(c, r3, "html/layout", tfiles, 6)
-	_ = fmt.Sprint
-}
-
-// spanBounds: shared by C09.R5 and C13.R1.
-func spanBounds(c *core.Check, r *core.Rule) {
-	p := c.Prog
-	fn := p.Fn("html/boxes", "NewTableCellBox")
-	if fn == nil {
-		r.Anchor("html/boxes.NewTableCellBox")
-		return
-	}
-	want := map[string]int64{"Colspan": 1, "Rowspan": 0}
-	seen := map[string]bool{}
-	core.Instrs(fn, func(in ssa.Instruction) {
-		st, ok := in.(*ssa.Store)
-		if !ok {
-			return
-		}
-		fa, ok := st.Addr.(*ssa.FieldAddr)
-		if !ok {
-			return
-		}
-		w, isSpan := want[core.FieldName(fa)]
-		if !isSpan {
-			return
-		}
-		seen[core.FieldName(fa)] = true
-		got := int64(-99)
-		if call, ok := st.Val.(*ssa.Call); ok && len(call.Call.Args) == 2 {
-			if k, ok := core.ConstInt(call.Call.Args[1]); ok {
-				got = k
-			}
-		}
-		r.Cond(got == w, "NewTableCellBox | "+core.FieldName(fa)+" lower bound", p.Pos(st.Pos()), fmt.Sprintf("minimum %d", got), fmt.Sprintf("the attribute is read with the lower bound %d, HTML 5 gives %d", got, w))
-	})
-	for f := range want {
-		if !seen[f] {
-			r.Fail("NewTableCellBox | "+f+" lower bound", p.Pos(fn.Pos()), "the field is not assigned")
-		}
 	}
 }
